@@ -110,6 +110,15 @@ func (d *DateTime) UnmarshalUT0311L0x(b []byte) (any, error) {
 		}
 	}
 
+	// ... the zero value is encoded as 0001-01-01 00:00:00
+	if bytes.Equal(b[0:7], []byte{0x00, 0x01, 0x01, 0x01, 0, 0, 0}) {
+		if d == nil {
+			return nil, nil
+		} else {
+			return &DateTime{}, nil
+		}
+	}
+
 	decoded, err := bcd.Decode(b[0:7])
 	if err != nil {
 		return nil, err
